@@ -654,12 +654,14 @@ pub struct Machine<'a> {
     chosen: HashMap<usize, i32>,
     seq: HashMap<usize, i32>,
     turn: i32,
-    safe_exit: bool,
+    /// a safe exit (-> DONE) happened, at this length of the output stream
+    safe_exit: Option<usize>,
     alive: bool,
     fuel: u64,
     /// string-evaluation nesting (choice text)
     in_string: usize,
     events: std::collections::BTreeSet<&'static str>,
+    string_tags: Vec<String>,
 }
 
 type R<T> = Result<T, String>;
@@ -682,11 +684,12 @@ impl<'a> Machine<'a> {
             chosen: HashMap::new(),
             seq: HashMap::new(),
             turn: -1,
-            safe_exit: false,
+            safe_exit: None,
             alive: true,
             fuel: 200_000,
             in_string: 0,
             events: Default::default(),
+            string_tags: vec![],
         };
         for (n, e) in &lw.globals {
             let v = m.eval(e)?;
@@ -826,8 +829,8 @@ impl<'a> Machine<'a> {
                         break;
                     }
                 }
-                Out::BeginString | Out::TagBegin | Out::TagEnd => break,
-                Out::Glue => {}
+                // markers are stepped over; the text of a tag is text and ends the trimming
+                Out::BeginString | Out::TagBegin | Out::TagEnd | Out::Glue => {}
             }
         }
     }
@@ -1090,13 +1093,14 @@ impl<'a> Machine<'a> {
         Ok(())
     }
 
-    /// evaluate content as a string (choice text)
-    fn content_string(&mut self, v: &[LI]) -> R<String> {
+    /// evaluate content as a string (choice text); tags raised meanwhile belong to the choice
+    fn content_string(&mut self, v: &[LI]) -> R<(String, Vec<String>)> {
         self.out.push(Out::BeginString);
         self.in_string += 1;
         let r = self.content(v);
         self.in_string -= 1;
         let mut s = String::new();
+        let mut tags = vec![];
         let mut k = self.out.len();
         while k > 0 {
             k -= 1;
@@ -1104,14 +1108,32 @@ impl<'a> Machine<'a> {
                 break;
             }
         }
+        let mut in_tag = false;
+        let mut cur = String::new();
         for o in &self.out[k + 1..] {
-            if let Out::Text(t) = o {
-                s.push_str(t);
+            match o {
+                Out::Text(t) => {
+                    if in_tag {
+                        cur.push_str(t);
+                    } else {
+                        s.push_str(t);
+                    }
+                }
+                Out::TagBegin => {
+                    in_tag = true;
+                    cur.clear();
+                }
+                Out::TagEnd => {
+                    in_tag = false;
+                    tags.push(clean_ws(&cur));
+                }
+                _ => {}
             }
         }
         self.out.truncate(k);
+        tags.append(&mut self.string_tags);
         r?;
-        Ok(s)
+        Ok((s, tags))
     }
 
     // ---------------------------------------------------------------- counting
@@ -1268,6 +1290,11 @@ impl<'a> Machine<'a> {
                 self.content(&v)?;
                 self.set_pos(pos + 1);
             }
+            Op::Tag(t) if self.in_string > 0 => {
+                // a tag raised while choice text is evaluated belongs to the choice
+                self.string_tags.push(clean_ws(&t));
+                self.set_pos(pos + 1);
+            }
             Op::Tag(t) => {
                 self.out.push(Out::TagBegin);
                 self.out.push(Out::Text(t));
@@ -1346,13 +1373,13 @@ impl<'a> Machine<'a> {
                 if self.threads.len() > 1 {
                     self.threads.pop();
                 } else {
-                    self.safe_exit = true;
+                    self.safe_exit = Some(self.out.len());
                     return Ok(Flow::Stopped);
                 }
             }
             Op::End => {
                 self.pending.clear();
-                self.safe_exit = true;
+                self.safe_exit = Some(self.out.len());
                 self.alive = false;
                 let t = self.threads.pop().unwrap();
                 self.threads.clear();
@@ -1392,10 +1419,20 @@ impl<'a> Machine<'a> {
     fn choice_point(&mut self, id: usize, pos: usize) -> R<()> {
         let c = self.lw.choices[id].clone();
         let mut tags: Vec<String> = vec![];
-        let start = if c.fallback { String::new() } else { self.content_string(&c.start)? };
+        let start = if c.fallback {
+            String::new()
+        } else {
+            let (s, t) = self.content_string(&c.start)?;
+            tags.extend(t);
+            s
+        };
         tags.extend(c.start_tags.iter().cloned());
         let only = match &c.bracket {
-            Some(b) => self.content_string(b)?,
+            Some(b) => {
+                let (s, t) = self.content_string(b)?;
+                tags.extend(t);
+                s
+            }
             None => String::new(),
         };
         let mut show = true;
@@ -1434,6 +1471,32 @@ impl<'a> Machine<'a> {
         self.pending.iter().filter(|p| !p.invisible).map(|p| (p.text.clone(), p.tags.clone())).collect()
     }
 
+    /// a safe exit only covers the line it happened on: every line is delivered by a
+    /// continue of its own, and each continue starts without it
+    fn safe_exit_holds(&self) -> bool {
+        match self.safe_exit {
+            None => false,
+            Some(at) => {
+                // the continue that executed the exit is the one that delivers the line in
+                // progress at that moment; running out of content later in that same continue
+                // is covered, i.e. no further line may have been started after it
+                let tail: Vec<&String> = self
+                    .out
+                    .iter()
+                    .skip(at)
+                    .filter_map(|o| match o {
+                        Out::Text(t) => Some(t),
+                        _ => None,
+                    })
+                    .collect();
+                match tail.iter().position(|t| is_newline(t)) {
+                    None => true,
+                    Some(p) => tail[p + 1..].iter().all(|t| is_inline_ws(t)),
+                }
+            }
+        }
+    }
+
     /// the player picks the i-th visible choice
     pub fn choose(&mut self, i: usize) -> R<()> {
         let vis: Vec<usize> = (0..self.pending.len()).filter(|k| !self.pending[*k].invisible).collect();
@@ -1447,7 +1510,7 @@ impl<'a> Machine<'a> {
     /// run until the story stops; returns the lines of this turn and why it stopped
     pub fn turn(&mut self) -> (Vec<RLine>, Stop) {
         self.out.clear();
-        self.safe_exit = false;
+        self.safe_exit = None;
         let mut err: Option<String> = None;
         if self.alive {
             loop {
@@ -1491,7 +1554,7 @@ impl<'a> Machine<'a> {
                     Stop::End
                 } else if !vis.is_empty() {
                     Stop::Choices(vis)
-                } else if self.safe_exit {
+                } else if self.safe_exit_holds() {
                     Stop::End
                 } else {
                     Stop::Error("ran out of content".into())
